@@ -1,5 +1,5 @@
 """./check <property> [--tier quick|thorough]  - entry point of every registered check."""
-import argparse, importlib, os, random, sys, time, traceback
+import argparse, importlib, os, random, re, sys, time, traceback
 
 sys.path.insert(0, os.path.dirname(os.path.dirname(os.path.abspath(__file__))))
 from vf import build, report, srcdefs                      # noqa: E402
@@ -31,9 +31,26 @@ class Ctx:
         inl = []
         probe = Exec(self.fns)
         for rx, body_rx in inline:
-            inl.append((rx, probe.find(body_rx).name))
+            m = re.search(r'(\w+)::\w+\$?$', rx.replace('\\', ''))
+            try:
+                inl.append((rx, probe.find(body_rx, hint=m.group(1) if m else None).name))
+            except report.Broken:
+                # two impl blocks of one module offer the method (an edit added a stage type): take the block whose header names the type
+                cands = [n for n in self.fns if re.search(body_rx, n)]
+                pick = [n for n in cands if m and self._impl_header_mentions(n, m.group(1))]
+                if len(pick) != 1: raise
+                inl.append((rx, pick[0]))
         ex = Exec(self.fns, enums=self.enums, structs=self.structs, summaries=list(summaries) + GENERIC, inline=inl, max_visits=max_visits)
         return ex
+
+    def _impl_header_mentions(self, name, ty):
+        m = re.search(r'<impl at (src/[^:>]+):(\d+):\d+: \d+:\d+>', name)
+        if not m: return False
+        try:
+            line = open(os.path.join(self.tree.src, m.group(1))).read().splitlines()[int(m.group(2)) - 1]
+        except Exception:
+            return False
+        return re.search(r'\b%s\b' % re.escape(ty), line) is not None
 
     def find(self, rx):
         return Exec(self.fns).find(rx)
